@@ -23,6 +23,8 @@ def exportable_gate(rng, n, us, allow=("op", "meas", "pauli")):
     if "pauli" in allow and r < 0.28:
         return {"g": "pauli", "term": rand_string(rng, n, allow_empty=False)}
     g = rand_gate(rng, n, EXPORTABLE)
+    if g["cs"] and g["kind"] not in ("CNOT", "Toffoli") and rng.random() < 0.08:       # a control listed twice (same control)
+        g = dict(g, cs=g["cs"] + [rng.choice(g["cs"])])
     return dict(g, g="op")
 
 def rand_circuit(rng, n, length, us, allow=("op", "meas", "pauli")):
@@ -74,8 +76,14 @@ def build_instrs(n, gates, text):
         return us[k] if k < len(us) else ["0", "0", "0"]
     def lits(xs): return "[" + ";".join(cq_lit(t) for t in xs) + "]"
     out = []
+    def dedup(cs):
+        seen = []
+        for c in cs:
+            if c not in seen: seen.append(c)
+        return seen
     for g in gates:
         if g["g"] == "op":
+            g = dict(g, cs=dedup(g["cs"]))          # the exporter lists a repeated control once
             k = g["kind"]
             if k in ("U2", "RYP", "RYPdag"):
                 out.append('IGate "U"%%string %s %s %s' % (lits(next_u()), cqNs(g["ts"]), cqNs(g["cs"])))
